@@ -236,6 +236,49 @@ fn api_roundtrip(out: &mut Out, rng: &mut Rng) {
     }
 }
 
+/// API sequences that include refused calls: add_field with a duplicate or lower tag must
+/// return Err and leave the message exactly as it was.
+fn api_sequence(out: &mut Out, rng: &mut Rng) {
+    let mut model = RefMsg::new();
+    let mut m = RtMessage::with_capacity(4);
+    let mut log: Vec<String> = Vec::new();
+    let nops = rng.range(2, 14);
+    for _ in 0..nops {
+        let t = tag_u32(KNOWN_TAGS[rng.usize_below(18)]);
+        let v = rng.rbytes(0, 4).iter().flat_map(|b| [*b; 4]).collect::<Vec<u8>>();
+        let expect_ok = model.fields.last().map(|(last, _)| t > *last).unwrap_or(true);
+        let r = m.add_field(tag_of(t).unwrap(), &v);
+        log.push(format!("add_field({}, {} bytes) -> {}", tag_name(t), v.len(), if r.is_ok() { "Ok" } else { "Err" }));
+        if expect_ok {
+            model.fields.push((t, v));
+        }
+        out.obs(if expect_ok { "api_adds_expected_ok" } else { "api_adds_expected_refused" }, 1);
+        let desc = || json!({"kind":"api-sequence","ops":log});
+        if r.is_ok() != expect_ok {
+            out.violation(
+                &format!("C05 add_field {} out-of-order-or-duplicate", if r.is_ok() { "accepts" } else { "rejects-ascending" }),
+                &format!("after {:?}: add_field({}) returned {}", model.fields.iter().map(|f| tag_name(f.0)).collect::<Vec<_>>(), tag_name(t), if r.is_ok() { "Ok" } else { "Err" }),
+                desc(),
+            );
+            return;
+        }
+        // state after every call equals the model
+        let enc = catch_unwind(AssertUnwindSafe(|| m.encode()));
+        let state_ok = content_of(&m) == model.fields && m.num_fields() as usize == model.fields.len() && matches!(&enc, Ok(Ok(e)) if *e == model.encode());
+        if !state_ok {
+            take_panics();
+            out.violation(
+                "C05 api state differs after-refused-or-accepted-add_field",
+                &format!("after ops {:?} the message holds tags {:?} / {} values; expected {:?}", log, m.tags().iter().map(|t| t.to_string()).collect::<Vec<_>>(), m.values().len(), model.fields.iter().map(|f| tag_name(f.0)).collect::<Vec<_>>()),
+                desc(),
+            );
+            return;
+        }
+    }
+    out.case(fnv64(log.join(";").as_bytes()), true);
+    out.obs("api_sequences", 1);
+}
+
 fn tag_table(out: &mut Out, rng: &mut Rng) {
     // every known tag maps both ways, enum order == numeric wire order
     let mut tags = Vec::new();
@@ -285,7 +328,7 @@ pub fn run(ctx: &Ctx, out: &mut Out, prop: &str) {
     if let Some(r) = &ctx.replay {
         if r["kind"] == "nestprobe" {
             let exe = std::env::current_exe().unwrap();
-            let o = std::process::Command::new(exe).args(["nestprobe", &r["depth"].to_string(), r["place"].as_str().unwrap_or("main")]).output().unwrap();
+            let o = std::process::Command::new(exe).args(["nestprobe", &r["depth"].to_string(), r["place"].as_str().unwrap_or("main"), &r["shape"].as_u64().unwrap_or(0).to_string()]).output().unwrap();
             out.case(1, true);
             out.case(2, true);
             if !o.status.success() {
@@ -312,6 +355,9 @@ pub fn run(ctx: &Ctx, out: &mut Out, prop: &str) {
         }
         for _ in 0..ctx.share(100_000, 800_000) {
             api_roundtrip(out, &mut rng);
+        }
+        for _ in 0..ctx.share(100_000, 800_000) {
+            api_sequence(out, &mut rng);
         }
     }
 
@@ -481,23 +527,35 @@ pub fn run(ctx: &Ctx, out: &mut Out, prop: &str) {
         // of stack is a fatal signal, not an unwind
         if ctx.shard == 0 {
             let mut kids = Vec::new();
+            // shape 0 cycles CERT/DELE/SREP; shapes 1..=9 are "outer tag a, then only tag b" for
+            // every ordered pair (a, b), including the single-tag chains
+            let mut plan: Vec<(usize, &str, usize)> = Vec::new();
             for depth in [1usize, 10, 100, 1000, 2000, 8000] {
                 for place in ["main", "thread"] {
+                    plan.push((depth, place, 0));
+                }
+            }
+            for shape in 1..=9usize {
+                plan.push((8000, "thread", shape));
+                plan.push((12, "main", shape));
+            }
+            for (depth, place, shape) in plan {
+                {
                     let exe = std::env::current_exe().unwrap();
                     let c = std::process::Command::new(exe)
-                        .args(["nestprobe", &depth.to_string(), place])
+                        .args(["nestprobe", &depth.to_string(), place, &shape.to_string()])
                         .stdout(std::process::Stdio::null())
                         .stderr(std::process::Stdio::piped())
                         .spawn();
-                    out.case(fnv64(format!("nest{}{}", depth, place).as_bytes()), true);
+                    out.case(fnv64(format!("nest{}{}{}", depth, place, shape).as_bytes()), true);
                     match c {
-                        Ok(c) => kids.push((depth, place, c)),
+                        Ok(c) => kids.push((depth, place, shape, c)),
                         Err(e) => out.inconclusive(&format!("nestprobe spawn failed: {}", e)),
                     }
                 }
             }
             let t0 = std::time::Instant::now();
-            for (depth, place, mut c) in kids {
+            for (depth, place, shape, mut c) in kids {
                 let status = loop {
                     match c.try_wait() {
                         Ok(Some(st)) => break Some(st),
@@ -518,14 +576,14 @@ pub fn run(ctx: &Ctx, out: &mut Out, prop: &str) {
                             let _ = e.read_to_string(&mut err);
                         }
                         out.violation(
-                            &format!("C06 display deep-nesting abnormal-exit place={}", place),
-                            &format!("decoding+formatting a {}-level nested message (<= 64 KiB) ended with {:?}: {}", depth, st, err.chars().take(300).collect::<String>()),
-                            json!({"kind": "nestprobe", "depth": depth, "place": place}),
+                            &format!("C06 display deep-nesting abnormal-exit place={}{}", place, if shape == 0 { String::new() } else { format!(" shape={}", shape_name(shape)) }),
+                            &format!("decoding+formatting a {}-level nested message (<= 64 KiB, shape {}) ended with {:?}: {}", depth, shape_name(shape), st, err.chars().take(300).collect::<String>()),
+                            json!({"kind": "nestprobe", "depth": depth, "place": place, "shape": shape}),
                         )
                     }
                     None => {
                         out.obs("deep_nesting_probes_timeout", 1);
-                        out.note(&format!("nestprobe depth={} place={} still formatting after 25 s (slow, not a verdict)", depth, place));
+                        out.note(&format!("nestprobe depth={} place={} shape={} still formatting after 25 s (slow, not a verdict)", depth, place, shape));
                     }
                 }
             }
@@ -534,6 +592,7 @@ pub fn run(ctx: &Ctx, out: &mut Out, prop: &str) {
         out.floor("random_strings", 10_000);
     } else {
         out.floor("api_messages", 5_000);
+        out.floor("api_adds_expected_refused", 10_000);
         out.floor("framed_checked", 5_000);
         out.floor("tag_pairs_compared", 324);
     }
@@ -544,16 +603,33 @@ pub fn run(ctx: &Ctx, out: &mut Out, prop: &str) {
 
 
 /// child-process probe: decode and format a message nested `depth` levels deep
-pub fn nestprobe(depth: usize, place: &str) {
+pub fn shape_name(shape: usize) -> String {
+    const N: [&str; 3] = ["CERT", "DELE", "SREP"];
+    if shape == 0 {
+        "cycle".into()
+    } else {
+        format!("{}>{}*", N[(shape - 1) / 3], N[(shape - 1) % 3])
+    }
+}
+
+pub fn nestprobe(depth: usize, place: &str, shape: usize) {
+    const T: [u32; 3] = [CERT, DELE, SREP];
     let mut inner = RefMsg::new();
     inner.set(NONC, &[1, 2, 3, 4]);
     let mut b = inner.encode();
-    for i in 0..depth {
+    // built inside-out: the last wrap is the outermost tag
+    let mut levels = 0;
+    while levels < depth && b.len() + 16 <= 65_536 {
+        levels += 1;
+    }
+    for i in 0..levels {
+        let outermost = i + 1 == levels;
+        let tag = if shape == 0 { T[i % 3] } else if outermost { T[(shape - 1) / 3] } else { T[(shape - 1) % 3] };
         if b.len() + 8 > 65_536 {
             break;
         }
         let mut m = RefMsg::new();
-        m.set([CERT, DELE, SREP][i % 3], &b);
+        m.set(tag, &b);
         b = m.encode();
     }
     let work = move || {
